@@ -35,16 +35,18 @@ CLAIMS = {
                   'Validate and JSON documents with all tag combinations. Known findings D17/D24 are attributed by re-validating against the named specification variant.',
              technique='TLC trace validation of recorded real executions (Trace_Exec: KeyOf/PathStr/$first/key=path) + TLC model checking of ZogExec', ref='5 C10'),
  'C12': dict(text='TLC checks C12_PTOnlyWhenClean and C12_CallbackArgs on the traversal machine; recording callbacks of the harness emit one event per invocation (callback id from ctx.Issue().Path, '
-                  'argument class value/self-pointer/nil, value seen, ctx.Get snapshot) which TLC validates lock-step: order, count, timing (no issue exists), first error stops the rest and is reported at the node path.',
+                  'argument class value/self-pointer/nil, value seen, ctx.Get snapshot) which TLC validates lock-step: order, count, timing (no issue exists), first error stops the rest and is reported at the node path (plain error, ZogIssue, error wrapping a ZogIssue). '
+                  'PostTransforms of a skipped (absent optional) or caught node are required to run, as the code does, unless an issue exists (SwSoftPT=run); Preprocess functions are validated in both modes.',
              technique='TLC model checking of ZogExec + lock-step TLC trace validation of callback events (Trace_Exec)', ref='5 C12'),
  'C13': dict(text='For fully populated values the harness runs Validate(&v) and Parse(toMap(v), &fresh) on the real library; TLC validates both traces against the machine and compares the two logged results '
-                  '(path, code, type, message, resulting value). PostTransforms that fail are excluded from pairs (their issues depend on the visit order by design).',
+                  '(path, code, type, message, resulting value). PostTransforms that fail are excluded from pairs (their issues depend on the visit order by design). '
+                  'Typed values at and around every numeric type bound (Tab_C18) are additionally given to both modes: what Validate accepts, Parse of the same typed value must accept unchanged.',
              technique='TLC trace validation of paired real executions (Trace_Exec PairVerdicts) + TLC model checking of ZogExec in both modes', ref='5 C13'),
  'C07': dict(engine='ZogPools', text='TLC explores every call history (<=2 calls quick, <=3 thorough) over the call alphabet x every pool hand-off (a pool is a bag; Get takes any element or a fresh object) x GC drops, '
                   'checking NoStaleRead (no field read was written by another call) and ExclusiveOwner. Every history of that length (emitted by TLC) plus random longer ones is replayed on the real library; after each, every call kind is '
                   'probed and its complete projected result must equal the same call on cleared pools; all Get/Put/return events are validated by TLC against the ownership discipline (Trace_Pools).',
              technique='TLC model checking of ZogPools + replay of TLC-emitted histories with differential probes + TLC trace validation of pool events', ref='5 C07, 3.5',
-             note='Trusted: the projection of call results; sync.Pool modelled as a bag (per-P caches not modelled); GC disabled while tracing. Bounds: <=3 calls per history in the model, 14 call kinds in the harness.'),
+             note='Trusted: the projection of call results; sync.Pool modelled as a bag (per-P caches not modelled); GC disabled while tracing. Bounds: <=3 calls per history in the model (nested calls with <=2), 27 call kinds in the harness.'),
  'C08': dict(engine='ZogPools', text='TLC explores every interleaving of the pool operations of two goroutines (ExclusiveOwner, NoStaleRead). Goroutines run random calls concurrently on shared package-level schemas; the Get/Put events, '
                   'ordered by a sequence number taken inside the ownership interval, are validated by TLC (Trace_Pools), every result is compared with its sequential result, and the same episodes run free under the Go race detector.',
              technique='TLC model checking of ZogPools with 2 goroutines + TLC trace validation of concurrent pool events + race detector stress with sequential oracle', ref='5 C08',
